@@ -91,6 +91,7 @@ RULE = ('A-group: power lists of 1-30 (quick) / 1-48 (thorough) assemblies '
         '>= 2 groups and fewer groups than assemblies (group kinds) or >= 2 '
         'checked distribute calls incl. one with previous results (hist, '
         'e2e); distinct by case kind and generated content.')
+RULE += (' Later rounds added kind e2etp (2-3 time points with non-proportional powers), grouped types with un-rodded regions, gravity head with a limit, and monitors T1-T3 on the power and parametric-table inputs of the optimiser.')
 DECIDING = ['G1_partition', 'G2_group_count', 'G3_order',
             'D1_same_flow_in_group', 'D2_total_flow_first_iter',
             'D2_total_flow_later_iter', 'D3_dp_limit_respected',
